@@ -3,6 +3,7 @@
 HARNESSES = {
     'mc_hash': dict(src=['mc_hash.c'], flavour='asan'),
     'mc_logmath': dict(src=['mc_logmath.c'], flavour='asan'),
+    'mc_chunk': dict(src=['mc_chunk.c'], flavour='asan', ldflags=['-Wl,--wrap=acmod_score']),
     'mc_session': dict(src=['mc_session.c'], flavour='asan'),
     'mc_decode': dict(src=['mc_decode.c'], flavour='asan', ldflags=['-Wl,--wrap=acmod_score']),
     'mc_jsgf': dict(src=['mc_jsgf.c'], flavour='asan', ldflags=['-Wl,--wrap=exit']),
@@ -239,6 +240,27 @@ def _c16_specs(tier):
     return [('c16-dict-len4', ['--set', 'dict', '--len', '4']), ('c16-all-len3', ['--set', 'all', '--len', '3'])]
 
 
+def _c07_runs(tier):
+    r = []
+    if tier == 'quick':
+        # (audio, grammar, deviations, menu, subsets, firstcut, shards)
+        combos = [(0, 0, 3, 'small', 1, 1, 4), (0, 1, 2, 'full', 1, 0, 2), (1, 0, 2, 'full', 1, 0, 3), (1, 1, 2, 'small', 0, 0, 1),
+                  (2, 0, 2, 'small', 0, 0, 3), (2, 1, 1, 'full', 0, 0, 1), (3, 0, 1, 'full', 0, 0, 1), (4, 0, 2, 'small', 0, 0, 1)]
+    else:
+        combos = [(a, g, 3, 'full', 1, 1, 8) for a in (0, 1, 2) for g in (0, 1)] + [(3, 0, 2, 'full', 1, 0, 8), (3, 1, 2, 'small', 0, 0, 4),
+                                                                                  (4, 0, 3, 'small', 1, 0, 4), (4, 1, 2, 'full', 0, 0, 2)]
+    for a, g, dev, menu, subsets, firstcut, nsh in combos:
+        for i in range(nsh):
+            r.append(dict(h='mc_chunk', label='chunk-a%d-g%d-dev%d-%s-shard%d' % (a, g, dev, menu, i),
+                          args=['--audio', str(a), '--gram', str(g), '--dev', str(dev), '--menu', menu, '--subsets', str(subsets),
+                                '--firstcut', str(firstcut), '--shard', '%d/%d' % (i, nsh)]))
+    if tier == 'thorough':
+        for i in range(4):
+            r.append(dict(h='mc_chunk', label='chunk-compallsen-shard%d' % i, args=['--audio', '2', '--gram', '0', '--dev', '2', '--menu', 'full',
+                                                                                   '--compallsen', '1', '--shard', '%d/4' % i]))
+    return r
+
+
 SES_ASSUME = ['operation alphabet of 42 public-API calls (see harness/mc_session.c); audio = excerpts of tests/data/goforward.raw, zeros, and no samples; '
               'REAL front end and REAL acoustic scorer (no injected scores)',
               'grammar loading, dictionary additions and reinit are only issued between utterances (the documented protocol); every other call is issued in every state',
@@ -291,6 +313,23 @@ CHECKS = {
              'table and the transition matrix (emissions + self-loops + exit transition); second call returns the same object / same failure',
         assumptions=DEC_ASSUME + ['state scores are checked against the senone scores the aligner was given (the second pass uses its own '
                                   'context conventions, so they are not compared with first-pass word scores)'] + TRUST,
+    ),
+    'C07': dict(
+        title='decoding results do not depend on chunking or buffering mode',
+        level='exploration',
+        runs={'quick': _c07_runs('quick'), 'thorough': _c07_runs('thorough')},
+        budget_s={'quick': 600, 'thorough': 5400},
+        coverage=ex_cov,
+        rule='deviation-bounded enumeration: reference = ONE streaming decoder_process_int16 call; a plan deviates by cuts from a menu of up to '
+             '24 sample offsets around every internal threshold (1, 2, shift+-1, window+-1, window+shift, feature window, 128 frames +-1 (MFCC '
+             'ring), 256 frames +-1 (feature block), N/2, N-1), by buffering a chunk with no_search, by the float32 entry point, by a zero-length '
+             'call, by a partial hyp/seg/lattice/alignment query after a chunk; ALL plans with <= 2-3 deviations, all 1023 cut subsets of a '
+             '10-point sub-menu, every first cut in [1,600]; audio = 0.3/0.7/1.4 s excerpts and the whole goforward.raw, zeros; loop grammar and '
+             'alignment text; real front end and real scorer, decoder_set_cmn(fixed) before every utterance. Oracle (differential): feature '
+             'vector of every searched frame (hashed at the acmod_score seam), frames searched, hypothesis, score, every segment with scores, '
+             'and the three-level alignment identical to the reference run',
+        assumptions=['audio shorter than the 800-frame channel-normalisation update window', 'model en-us, 5-word dictionary',
+                     'full_utt=1 is a different documented mode (batch normalisation) and is covered by C08, not compared here'] + TRUST,
     ),
     'C08': dict(
         title='utterances and decoder instances are isolated; decoding is deterministic',
@@ -481,6 +520,12 @@ CHECKS = {
 PENDING_REASON = {}
 
 MANIFEST_TEXT = {
+    'C07': dict(
+        text='Iterative deviation bounding applied to the call pattern: every plan with up to 3 departures from the one-call reference '
+             '(cuts at all threshold offsets, buffering, float entry, zero-length calls, partial queries) plus all subsets of a 10-point cut '
+             'menu is executed on the real decoder with the real scorer and compared frame-by-frame (features) and result-by-result.',
+        design_ref='DESIGN.md section 2, H8', technique='deviation-bounded exhaustive enumeration of call patterns, differential oracle against the one-call run',
+        note='four excerpts of one recording plus zeros; two grammars'),
     'C08': dict(
         text='Bounded exhaustive enumeration of API histories on the real decoder with the real scorer; after each history a differential '
              'probe compares the state reached "from elsewhere" with a fresh decoder, in batch mode without any reset and in streaming '
